@@ -1395,3 +1395,23 @@ def seq_loop(interp, st, it, frame):
 
 LIB_CONSTANTS = globals().get("LIB_CONSTANTS", {})
 LIB_CONSTANTS.update({"numpy.inf": float("inf"), "numpy.nan": float("nan"), "numpy.pi": math.pi, "math.inf": float("inf"), "math.pi": math.pi})
+
+
+assumed("np.random", "numpy.random.randint(lo, hi) returns some integer in [lo, hi) from the process-global generator; nothing else is known about it")
+
+
+@lib("numpy.random.randint")
+def _np_random_randint(interp, args, kwargs, node, frame):
+    """a draw from the process-global generator: an unknown integer in range; the draw is recorded as ghost state"""
+    use(interp, "np.random")
+    lo = args[0] if len(args) > 1 else 0
+    hi = args[1] if len(args) > 1 else args[0]
+    v = interp.run.fresh_int("global_rng_draw")
+    interp.run._add(z3.And(v >= to_z3(lo), v < to_z3(hi)))
+    interp.run.__dict__["global_rng_draws"] = interp.run.__dict__.get("global_rng_draws", 0) + 1
+    return v
+
+
+@api("global_rng_draws")
+def _global_rng_draws(interp, args, kwargs, node, frame):
+    return interp.run.__dict__.get("global_rng_draws", 0)
